@@ -310,12 +310,13 @@ Qed.
 
 (* wrap_plain, full: for every abbreviation tree without `$#` and without an implicit repeater and every
    text (string or list of lines), the result is the tree obtained without text, with the whole text --
-   joined and stripped as the code does it -- inserted once into its deepest last element *)
+   joined and stripped as the code does it -- inserted once into its deepest last element
+   ([insert_wrap]: insert_text, then the markup.href rule on an `a` element; see proofs/HrefProofs.v) *)
 Theorem wrap_plain_full env mr root :
   ce_text env <> WNone -> quiet_all root ->
   convert env mr root =
     (let* children := convert (no_text env) mr root in
-     Ok (on_last_deepest (fun n => insert_text n (whole_text (ce_text env))) children)).
+     Ok (on_last_deepest (fun n => insert_wrap env n (whole_text (ce_text env))) children)).
 Proof.
   intros Ht Hq. unfold convert at 1 2.
   set (st0 := mkCst false (match mr with Some m => Z.of_N m | None => 1000000%Z end) [] false).
